@@ -6,7 +6,7 @@ use tensor_store::{ScalarValue, TensorData, TensorStore, TensorValue};
 use crate::{
     chunker::{Chunk, Chunker, StreamingHasher},
     error::{BlobError, Result},
-    gc::increment_chunk_refs,
+    gc::{increment_chunk_refs, lock_chunk},
     metadata::PutOptions,
 };
 
@@ -95,6 +95,9 @@ impl BlobWriter {
     /// Store a chunk, handling deduplication.
     fn store_chunk(&mut self, chunk: Chunk) -> Result<()> {
         let chunk_key = chunk.key();
+
+        // exists-then-count / exists-then-create must be one step per chunk
+        let _guard = lock_chunk(&chunk_key);
 
         // Check if chunk already exists (deduplication)
         if self.store.exists(&chunk_key) {
